@@ -207,6 +207,19 @@ pub fn run_line(c: &Case) -> Obs {
     };
     let obs = format!("{}|{es}|{ls}|{s0}/{se}/{sl}", hex(line.as_bytes()));
     let verdict = (|| {
+        // lazy = eager on every line the writer produced from a record with the header's number of
+        // samples (the eager reader reads exactly the header's sample columns, the lazy one all)
+        let ns_hdr: usize = c.args[3].parse().unwrap();
+        if let (Some(ec), Some(lc), true) = (&ec, &lc, orig.samples.len() == ns_hdr) {
+            if let Some(f) = first_diff(ec, lc) {
+                let tag = if orig.keys.is_empty() && !orig.samples.is_empty() {
+                    "lazy-samples-dropped-format-missing".to_string()
+                } else {
+                    format!("line-{f}-lazy-ne-eager")
+                };
+                return Err((tag, format!("{line} :: eager {ec:?} lazy {lc:?}")));
+            }
+        }
         if !valid {
             return Ok(());
         }
